@@ -23,6 +23,9 @@ def run(rep, tier, seed):
     heavy = [c for c in confs if c[0] in (("fat12-small", "fat12-1fat") if tier == "quick" else ("fat12-small", "fat12-1fat", "fat16-min", "fat32-min"))]
     for i in range(4 if tier == "quick" else 80):
         scripts.append(sessions.dir_heavy_session(rng, heavy[i % len(heavy)], nfiles=rng.range(8, 16)))
+    # FAT32 objects whose first cluster needs the high word of the entry, then loses it again
+    for i in range(1 if tier == "quick" else 12):
+        scripts.append(sessions.fat32_high_cluster_session(rng))
     judged = sessions.run_judged(scripts, flags=("wf", "tree"), shards=16)
     checked_states = 0
     for jd in judged:
